@@ -15,7 +15,7 @@ import ast
 from typing import Dict, List, Optional, Tuple
 
 from ..cfg import CFG
-from ..minieval import Evaluator, Record, Unsupported
+from ..minieval import PyRaise, Evaluator, Record, Unsupported
 from ..model import ClassInfo, FuncInfo, Repo, dotted, load_repo
 from ..report import AnalysisError, Report
 from ..util import cli_args_name, body_walk, cmp_normal, cmp_oriented, kwarg, norm, src, walk_no_nested
@@ -541,14 +541,18 @@ def check_faces(repo: Repo, rep: Report, dom: "SevDomain", tier: str = "quick"):
     wrong = []
     json_missing = []
     not_all_checked = []
+    swallowed = []
     evaluations = 0
-    for case in cases:
+    # a report that cannot be written: check_safety writes the JSON report *before* it returns, so an OSError out of it means
+    # that pickle's verdict never reached the caller; whatever the CLI does with the error, it must not report success
+    fail_cases = [(case, k) for case in cases if len(case) <= 2 for k in range(len(case))]
+    for case, fail_at in [(c, None) for c in cases] + fail_cases:
         for print_results in (False, True):
-            for json_output in (None, "out.json"):
+            for json_output in (None, "out.json") if fail_at is None else ("missing-dir/out.json",):
                 pickles = [Record("Pickled", {"name": f"p{i}", "sev": sv, "idx": i}) for i, sv in enumerate(case)]
                 checked = []
 
-                def hook(name, args, kw, ev, _checked=checked):
+                def hook(name, args, kw, ev, _checked=checked, _fail_at=fail_at):
                     last = name.split(".")[-1]
                     if last == "check_safety":
                         subj = args[0] if args else kw.get("pickled")
@@ -556,6 +560,8 @@ def check_faces(repo: Repo, rep: Report, dom: "SevDomain", tier: str = "quick"):
                             raise Unsupported("check_safety called on something that is not a stacked pickle")
                         jp = kw.get("json_output_path", args[3] if len(args) > 3 else None)
                         _checked.append((subj.fields["idx"], jp))
+                        if _fail_at is not None and subj.fields["idx"] == _fail_at:
+                            raise PyRaise("FileNotFoundError")
                         return Record("AnalysisResults", {"severity": subj.fields["sev"], "results": ()})
                     if last in ("print", "write", "to_string", "to_dict", "flush", "dump", "dumps", "isatty"):
                         return None
@@ -575,8 +581,17 @@ def check_faces(repo: Repo, rep: Report, dom: "SevDomain", tier: str = "quick"):
                     code = ev.run_body(arm.body)
                 except Unsupported as e:
                     raise AnalysisError(f"cli.main --check-safety arm: cannot interpret over the verdict domain: {e}")
+                except PyRaise as pe:
+                    if fail_at is None:
+                        raise AnalysisError(f"cli.main --check-safety arm raises {pe.name} over the verdict domain")
+                    continue  # the error propagates: a traceback and a non-zero exit status - not a success
                 evaluations += 1
                 all_safe = all(sv is safe for sv in case)
+                if fail_at is not None:
+                    zero = code is None or code is False or (isinstance(code, int) and not isinstance(code, bool) and (code & 0xFF) == 0)
+                    if zero and case[fail_at] is not safe:
+                        swallowed.append((tuple(sv.fields["name"] for sv in case), fail_at))
+                    continue
                 # what the operating system sees: sys.exit(None/False/0) -> 0, an int -> its low 8 bits
                 zero = code is None or code is False or (isinstance(code, int) and not isinstance(code, bool) and (code & 0xFF) == 0)
                 if zero != all_safe:
@@ -592,6 +607,9 @@ def check_faces(repo: Repo, rep: Report, dom: "SevDomain", tier: str = "quick"):
         rep.bad("C10.faces", main.qualname, "cli-exit-code", f"--check-safety exit status is not `0 iff every stacked pickle is LIKELY_SAFE`: {len(wrong)} of {evaluations} verdict sequences wrong, e.g. severities {shown} -> main() returns {ex[1]!r}, i.e. process exit status {(ex[1] & 0xFF) if isinstance(ex[1], int) and not isinstance(ex[1], bool) else ex[1]!r}", cfile, arm.lineno, what=f"exit status wrong on {len(wrong)}/{evaluations} verdict sequences")
     else:
         rep.ok("C10.faces", main.qualname, f"--check-safety exit status == 0 iff all stacked pickles LIKELY_SAFE on all {evaluations} verdict sequences x option settings", f"{cfile}:{arm.lineno}")
+    if swallowed:
+        ex = swallowed[0]
+        rep.bad("C10.faces", main.qualname, "cli-verdict-lost-with-report-error", f"when the JSON report of stacked pickle #{ex[1]} (severities {list(ex[0])}) cannot be written, check_safety raises before it returns that pickle's verdict and --check-safety still exits 0: the error is swallowed together with the verdict of a flagged pickle", cfile, arm.lineno)
     if not_all_checked:
         ex = not_all_checked[0]
         rep.bad("C10.faces", main.qualname, "cli-not-all-checked", f"check_safety is not called exactly once per stacked pickle: for severities {list(ex[0])} it ran on indices {ex[1]}", cfile, arm.lineno)
